@@ -348,11 +348,11 @@ pub fn corrupt_ptr(rng: &mut Rng, valid: &str) -> String {
                     s.push('/');
                 }
                 s.push('~');
-                s.push_str(rng.pick(BAD_AFTER_TILDE));
+                s.push_str(*rng.pick(BAD_AFTER_TILDE));
             } else {
                 let at = *rng.pick(&tildes);
                 // the byte after a '~' in a valid pointer is '0' or '1'
-                s.replace_range(at + 1..at + 2, rng.pick(BAD_AFTER_TILDE));
+                s.replace_range(at + 1..at + 2, *rng.pick(BAD_AFTER_TILDE));
             }
         }
         // a multi-byte char right after a '~'
